@@ -110,6 +110,10 @@ func (w *World) Conns() []ConnInfo {
 //go:norace
 func (w *World) latency() time.Duration {
 	n := w.Plan.Net
+	if n.ZeroLat && w.netRng.IntN(2) == 0 {
+		// the client's reaction arrives while the broker is still in the middle of what triggered it
+		return 0
+	}
 	lo, hi := n.LatMinUs, n.LatMaxUs
 	if hi <= lo {
 		return time.Duration(lo+1) * time.Microsecond
@@ -819,6 +823,7 @@ func (w *World) connect(cl *cli, o *OpRec) {
 	c.parser.Ver = ver
 	c.ackMode = op.Ack
 	c.ackDelay = op.AckDelay.D()
+	prev := cl.conn
 	w.conns = append(w.conns, c)
 	// a client that still has an open connection abandons it silently (half-open) — it stays open on the broker side
 	cl.conn = c
@@ -888,6 +893,20 @@ func (w *World) connect(cl *cli, o *OpRec) {
 	}
 	o.Sent = p
 	c.send(w, p, o, 0)
+	if op.CarryAcks && prev != nil && len(prev.heldAcks) > 0 {
+		// acknowledgements of messages received on the previous connection, pipelined behind CONNECT
+		n := 0
+		for _, a := range prev.heldAcks {
+			if a.Type == mqttc.PUBACK { // final QoS 1 acknowledgements only: a carried PUBREC would fork the QoS 2 state
+				c.send(w, a, nil, 0)
+				n++
+			}
+		}
+		prev.heldAcks = nil
+		if n > 0 {
+			w.Faults["client.ack_behind_connect"]++
+		}
+	}
 }
 
 // ---------------------------------------------------------------- API actors
